@@ -400,6 +400,8 @@ func checkC20(c *Check) {
 				if g, ok := ins.(*ssa.Go); ok {
 					if mc, isMC := g.Common().Value.(*ssa.MakeClosure); isMC {
 						body = mc.Fn.(*ssa.Function)
+					} else if sc := g.Common().StaticCallee(); sc != nil && sc.Blocks != nil {
+						body = sc
 					}
 				}
 			}
@@ -438,7 +440,8 @@ func checkC20(c *Check) {
 			c.Obl(okDone, "C20.R5", "loop-stops-on-cancel", P.Pos(body.Pos()), "the watcher loop returns when its context is done", "the watcher loop has no ctx.Done() arm that returns: a cancelled watcher keeps polling")
 			// callback only under content differs
 			okDiff := false
-			for _, b := range body.Blocks {
+			for _, bf := range deepFuncs(body, 2) {
+			for _, b := range bf.Blocks {
 				for _, ins := range b.Instrs {
 					g, ok := ins.(*ssa.Go)
 					if !ok {
@@ -457,7 +460,7 @@ func checkC20(c *Check) {
 					if fieldNameOfLoad(resolveCell(stripConv(cv))) != "callback" {
 						continue
 					}
-					for cond, pol := range FactsOf(body).At(ins) {
+					for cond, pol := range FactsOf(bf).At(ins) {
 						if bo, isB := cond.(*ssa.BinOp); isB && (bo.Op == token.NEQ && pol || bo.Op == token.EQL && !pol) && isString(bo.X.Type()) {
 							if depFields(bo.X)["data"] || depFields(bo.Y)["data"] {
 								okDiff = true
@@ -465,6 +468,7 @@ func checkC20(c *Check) {
 						}
 					}
 				}
+			}
 			}
 			c.Obl(okDiff, "C20.R5", "callback-only-on-change", P.Pos(body.Pos()), "the callback is invoked only when the content differs from the last seen one", "the reload callback is invoked without the `content differs` test")
 		}
